@@ -280,6 +280,7 @@ func runC07Session(c *Ctx, pki *tlsPKI, suite uint16, f c07Fault, idx int, ivMu 
 		receiver.CloseWrite()
 		w["receiver_half_closed_before_reading"] = true
 		rep.Count("blackbox_runs_with_half_closed_receiver", 1)
+		rep.Require("blackbox_runs_with_half_closed_receiver", 5)
 	}
 	go func() {
 		defer wg.Done()
